@@ -22,6 +22,9 @@ LSVecs ==
   \* legacy Destination with a NULL certificate (DSA-SHA1 / ElGamal): cannot be built by a constructor, so it is parsed from this encoding
   \o SeqMap(LAMBDA n : SB("NewLeaseSet", 0, [ct |-> 0, nleases |-> n, idbase |-> EncIdentity("null", 0, 0, 9), idslot |-> [off |-> BlockLen - SigPubLen(0), len |-> SigPubLen(0)]], 40, << >>, 380 + n), << 0, 1, 16 >>)
   \o << SB("NewLeaseSet", 7, [ct |-> 4, nleases |-> 1], 64, << >>, 390), SB("NewLeaseSet", 11, [ct |-> 4, nleases |-> 1], 64, << >>, 391) >>
+  \* an independent revocation key in the signing_key field (the usual case on the network)
+  \o Cross2(<< << 0, 0, 40 >>, << 7, 4, 64 >>, << 7, 0, 64 >>, << 11, 4, 64 >> >>, << 1, 3 >>, LAMBDA t, n :
+         SB("NewLeaseSet", t[1], [ct |-> t[2], nleases |-> n, otherrevkey |-> TRUE], t[3], << >>, 395 + t[1] + n))
 OffVecs ==
   Cross3(<< 7, 11, 8 >>, << 7, 11, 8, 0, 1 >>, << << 0, 0, 0, 1 >>, T4, << 255, 255, 255, 255 >> >>, LAMBDA dst, tst, ex :
      SB("CreateOfflineSignature", dst, [tst |-> tst, expires |-> ex], 64, << >>, 400 + dst * 10 + tst))
